@@ -62,15 +62,39 @@ impl Default for Options {
 	}
 }
 
+/// Strict UTF-8 decoder over a byte slice.
+///
+/// `utf8_decode` accepts overlong encodings (such as `C1 81` for `A`), which
+/// are ill-formed UTF-8: a well-formed sequence is exactly as long as the
+/// shortest encoding of the character it decodes to.
+struct Utf8Chars<'a>(std::slice::Iter<'a, u8>);
+
+impl<'a> Iterator for Utf8Chars<'a> {
+	type Item = io::Result<char>;
+
+	fn next(&mut self) -> Option<Self::Item> {
+		let len = self.0.len();
+		let c = utf8_decode::decode(&mut self.0.by_ref().copied())?;
+		Some(c.and_then(|c| {
+			if len - self.0.len() == c.len_utf8() {
+				Ok(c)
+			} else {
+				Err(io::Error::new(
+					io::ErrorKind::InvalidData,
+					"overlong UTF-8 sequence",
+				))
+			}
+		}))
+	}
+}
+
 pub trait Parse: Sized {
 	fn parse_slice(content: &[u8]) -> Result<(Self, CodeMap), Error> {
-		Self::parse_utf8(utf8_decode::Decoder::new(content.iter().copied()))
-			.map_err(Error::io_into_utf8)
+		Self::parse_utf8(Utf8Chars(content.iter())).map_err(Error::io_into_utf8)
 	}
 
 	fn parse_slice_with(content: &[u8], options: Options) -> Result<(Self, CodeMap), Error> {
-		Self::parse_utf8_with(utf8_decode::Decoder::new(content.iter().copied()), options)
-			.map_err(Error::io_into_utf8)
+		Self::parse_utf8_with(Utf8Chars(content.iter()), options).map_err(Error::io_into_utf8)
 	}
 
 	fn parse_str(content: &str) -> Result<(Self, CodeMap), Error> {
